@@ -95,6 +95,7 @@ class _Visitor:
         self.returned = None
         self.vars = {}           # loop var -> depth
         self.maxdepth = 0
+        self.notes = []
         self._walk(fn.body, 0)
 
     def _walk(self, body, depth):
@@ -124,7 +125,7 @@ class _Visitor:
                             dims = [_src(e) for e in shp.elts]
                         else:
                             dims = [_src(shp)] if shp is not None else []
-                        self.alloc[t.id] = ("garbage" if cn.startswith("empty") else "zero", dims)
+                        self.alloc[t.id] = ("garbage" if cn.startswith("empty") else "zero", dims, depth)
                     else:
                         self.inits.setdefault(t.id, []).append((depth, st.value))
                 elif isinstance(t, ast.Subscript) and isinstance(t.value, ast.Name):
@@ -138,9 +139,16 @@ class _Visitor:
             elif isinstance(st, ast.Return):
                 if isinstance(st.value, ast.Name):
                     self.returned = st.value.id
-            elif isinstance(st, (ast.If, ast.While, ast.With, ast.Try)):
-                if depth > 0:
-                    raise SkeletonError(f"control flow inside the loop nest ({type(st).__name__}) not modelled")
+            elif isinstance(st, ast.If):
+                # pessimistic about nothing, optimistic about nothing: both branches are taken as executed
+                self.notes.append(f"if at depth {depth}: both branches treated as executed")
+                self._walk(st.body, depth)
+                self._walk(st.orelse, depth)
+            elif isinstance(st, ast.With):
+                self._walk(st.body, depth)
+            elif isinstance(st, (ast.While, ast.Try)):
+                if depth > 0 or any(isinstance(n, ast.For) for n in ast.walk(st)):
+                    raise SkeletonError(f"control flow around/inside the loop nest ({type(st).__name__}) not modelled")
 
     @staticmethod
     def _subs(t: ast.Subscript):
@@ -157,6 +165,8 @@ class _Visitor:
                 and node.left.id in self.vars and isinstance(node.right, ast.Constant) and isinstance(node.right.value, int)):
             c = node.right.value if isinstance(node.op, ast.Add) else -node.right.value
             return {"var": self.vars[node.left.id], "off": c}
+        if isinstance(node, ast.Slice) and node.lower is None and node.upper is None and node.step is None:
+            return {"var": 0, "off": 0, "all": True}        # `:` — every index of the axis (expanded by `extract`)
         # anything else: not a function of the iteration that the model can see -> a fixed cell
         return {"var": 0, "off": 1}
 
@@ -173,7 +183,7 @@ def extract(repo: Path, spec: dict, n_outer=3, n_inner=3, n_other=2) -> dict:
     if outname is None:
         raise SkeletonError(f"{spec['func']}: no output array identified")
     if outname in v.alloc:
-        outinit, axes = v.alloc[outname]
+        outinit, axes, _ = v.alloc[outname]
     else:
         axes = list(spec.get("shape") or [])
         outinit = caller_alloc(repo, spec["caller"]) if spec.get("caller") else "garbage"
@@ -184,6 +194,8 @@ def extract(repo: Path, spec: dict, n_outer=3, n_inner=3, n_other=2) -> dict:
     accs = []
     for a in accn:
         consts = [d for d, val in v.inits.get(a, [])]
+        if a in v.alloc and v.alloc[a][0] == "zero":
+            consts.append(v.alloc[a][2])      # `A = np.zeros(n)` ... `A += term`: a whole-array accumulator (np.empty: never initialised)
         # the initialisation that governs the fold is the innermost one that encloses the `+=`
         add = max(v.adds[a])
         enclosing = [d for d in consts if d <= add]
@@ -211,6 +223,7 @@ def extract(repo: Path, spec: dict, n_outer=3, n_inner=3, n_other=2) -> dict:
     if len(axes) < rank:
         raise SkeletonError(f"{spec['func']}: shape of {outname} unknown")
     ext, shape = _bounds(v, axes, stores + outadds, n_outer, n_inner, n_other)
+    stores, outadds = _expand_slices(stores, shape), _expand_slices(outadds, shape)
     return {
         "name": spec["func"], "loops": [l[0] for l in v.loops], "ext": ext,
         "accs": [{"init": a["init"], "add": a["add"]} for a in accs],
@@ -218,8 +231,22 @@ def extract(repo: Path, spec: dict, n_outer=3, n_inner=3, n_other=2) -> dict:
         "fastmath": fl["fastmath"], "parallel": fl["parallel"],
         # documentation only (not read by the model)
         "_doc": {"loopvars": [l[1] for l in v.loops], "bounds": [l[2] for l in v.loops], "axes": axes,
-                 "accs": [a["name"] for a in accs], "out": outname, "file": spec["file"]},
+                 "accs": [a["name"] for a in accs], "out": outname, "file": spec["file"], "notes": v.notes},
     }
+
+
+def _expand_slices(writes, shape):
+    """`out[:, 0] = x` writes every cell of the axis: one write per index."""
+    import itertools
+    res = []
+    for w in writes:
+        axes_all = [m for m, t in enumerate(w["idx"]) if t.get("all")]
+        for combo in itertools.product(*[range(1, shape[m] + 1) for m in axes_all]):
+            idx = [dict(var=t["var"], off=t["off"]) for t in w["idx"]]
+            for m, i in zip(axes_all, combo):
+                idx[m] = {"var": 0, "off": i}
+            res.append(dict(w, idx=idx))
+    return res
 
 
 def _bounds(v, axes, writes, n_outer, n_inner, n_other):
